@@ -327,4 +327,13 @@ def catalogue():
                    'fast': {'succ': [{'to': 'outer'}]}, 'outer': {'join': -1}}
         P.oracle = {'slow': [oc]}
         out.append((nm, P))
+    # two parallel start tasks feeding a join; a two-step chain (small shapes: exhaustive operator / duplicate budgets stay cheap)
+    P = Program()
+    P.order = ['a', 'b', 'j']
+    P.tasks = {'a': {'succ': [{'to': 'j'}]}, 'b': {'succ': [{'to': 'j'}]}, 'j': {'join': -1}}
+    out.append(('pair_join', P))
+    P = Program()
+    P.order = ['a', 'b']
+    P.tasks = {'a': {'succ': [{'to': 'b'}]}, 'b': {}}
+    out.append(('chain2', P))
     return out
